@@ -64,6 +64,9 @@ struct Ctx {
     sapling_prover: OnceLock<LocalTxProver>,
     pks: Vec<(String, orchard::circuit::ProvingKey)>,
     vks: Vec<(String, orchard::circuit::VerifyingKey)>,
+    /// the current case's txid already moved once (later stages inherit the change; only the
+    /// first role that moves it is reported)
+    txid_moved: bool,
 }
 
 fn viol(c: &mut Ctx, class: &str, detail: String, replay: serde_json::Value) {
@@ -380,7 +383,10 @@ fn check_txid(c: &mut Ctx, role: &str, p: &Pczt, txid0: &Result<TxId, String>, m
         (Ok(a), Ok(b)) => {
             c.r.count("txid_compared_after_role", 1);
             c.r.count(&format!("txid_after:{role}"), 1);
-            if a != b {
+            if a != b && c.txid_moved {
+                c.r.count("txid_differs_downstream_of_reported_change", 1);
+            } else if a != b {
+                c.txid_moved = true;
                 viol(
                     c,
                     &format!("effects:txid-changed-by:{role}"),
@@ -1148,6 +1154,7 @@ fn run_case(c: &mut Ctx, rng: &mut ChaCha20Rng, made: Made, real: bool, ops: &[R
             c.r.count(&format!("pczts_with:{k}"), 1);
         }
     }
+    c.txid_moved = false;
     let p0 = made.p.clone();
     let txid0 = txid_of(&p0);
     if txid0.is_err() {
@@ -1715,6 +1722,7 @@ fn main() {
         sapling_prover: OnceLock::new(),
         pks: vec![],
         vks: vec![],
+        txid_moved: false,
     };
     let thorough = args.tier == Tier::Thorough;
     let ops = red_ops();
